@@ -135,14 +135,4 @@ theorem relOrders_skipEvs (l : List Entry) : relOrders (skipEvs l) = [] := by
   | nil => rfl
   | cons e t ih => simp_all [skipEvs, relOrders]
 
-theorem finOrders_droppedEvs (l : List Entry) : finOrders (droppedEvs l) = [] := by
-  induction l with
-  | nil => rfl
-  | cons e t ih => simp_all [droppedEvs, finOrders]
-
-theorem relOrders_droppedEvs (l : List Entry) : relOrders (droppedEvs l) = [] := by
-  induction l with
-  | nil => rfl
-  | cons e t ih => simp_all [droppedEvs, relOrders]
-
 end GoluaVerif.Proofs.C18
